@@ -482,7 +482,8 @@ impl Proj {
 /// First word of a response file of content version v: its length goes up and down with v, so that a rewritten
 /// response file is sometimes shorter than the one it replaces.
 pub fn rsp_word(v: u32) -> String {
-    format!("rsp{}{}", v, "x".repeat(((v as usize) * 5 + 9) % 12))
+    // consecutive versions are alternately of equal and of different length
+    format!("rsp{}{}", v, "x".repeat((((v / 2) as usize) * 5 + 9) % 12))
 }
 
 pub fn esc(p: &str) -> String {
